@@ -80,6 +80,13 @@ def gen_world(rng):
     for i, c in enumerate(boxes):
         recs.append((c[3:], []))
         dump.append(dict(k='boxed', name=c, get_type='foo_box%d_get_type' % i))
+    # hidden ancestors and private interfaces whose C structure is nevertheless declared in the scanned headers (an instance
+    # structure in a public header without a get-type function): still not registered, so still not part of the hierarchy
+    hidden = sorted(set(x for d in dump for x in d.get('parents', []) + d.get('ifaces', []) + d.get('prereqs', [])
+                        if x.startswith(('FooHidden', 'FooSecret', 'FooPriv'))))
+    for h in hidden:
+        if rng.random() < 0.5:
+            recs.append((h[3:], []))
     rng.shuffle(dump)
     funcs = [d['get_type'] for d in dump] + ['foo_plain', 'foo_obj0_get_type_name', 'foo_get_type_of', 'foo_a_get_gtype_x']
     return dict(recs=recs, dump=dump, funcs=funcs)
@@ -383,6 +390,69 @@ def fundamental_clauses(ck, S, ET, rng, n):
                                      detail=None if rec is None else rec.attrib)
 
 
+def container_clauses(ck, S, ET, rng, n):
+    """container GTypes (GPtrArray, GHashTable, GArray, GByteArray) reported for several signals and properties of a class; one
+    signal or property is annotated with (element-type ...): everything the dump reports about the OTHER signals and properties must
+    come out exactly as in the same world without that annotation (the reported types are per use, an annotation belongs to one use)"""
+    for i in range(n):
+        cont = rng.choice(['GPtrArray', 'GHashTable', 'GArray', 'GPtrArray'])
+        ann = '(element-type utf8 gint)' if cont == 'GHashTable' else '(element-type utf8)'
+        nsig = rng.randint(2, 3)
+        sig_names = ['alpha', 'beta', 'gamma'][:nsig]
+        others = ['gint', 'GObject', 'gchararray', 'GHashTable', 'GPtrArray']
+        sigs = {sn: [cont] + rng.sample(others, rng.randint(0, 2)) for sn in sig_names}
+        for sn in sig_names:
+            rng.shuffle(sigs[sn])
+            if cont not in sigs[sn]:
+                sigs[sn][0] = cont
+        props = {'items': cont, 'more': rng.choice([cont, 'gint'])}
+        sig_ret = {sn: rng.choice(['void', cont, 'gboolean']) for sn in sig_names}
+        body = []
+        for pn, pt in props.items():
+            body.append('<property name="%s" type="%s" flags="3"/>' % (pn, pt))
+        for sn in sig_names:
+            body.append('<signal name="%s" return="%s">%s</signal>' % (sn, sig_ret[sn], ''.join('<param type="%s"/>' % t for t in sigs[sn])))
+        dump = ('<?xml version="1.0"?><dump><class name="FooObj" get-type="foo_obj_get_type" parents="GObject">%s</class></dump>' % ''.join(body))
+        syms = [S.func('foo_obj_get_type', S.td('GType'), [], line=5),
+                S.FS(S.CSYMBOL_TYPE_TYPEDEF, 'FooObj', base_type=S.FT(S.CTYPE_STRUCT, '_FooObj'), line=10),
+                S.FS(S.CSYMBOL_TYPE_STRUCT, '_FooObj', base_type=S.FT(S.CTYPE_STRUCT, '_FooObj', child_list=[
+                    S.FS(S.CSYMBOL_TYPE_MEMBER, 'parent', base_type=S.td('GObject'), line=11)]), line=11)]
+        target = rng.choice(sig_names)       # (element-type) on a property block is not applied to the dump's type
+        if target == 'items':
+            block = '/**\n * FooObj:items: %s\n *\n * The items.\n */' % ann
+        else:
+            k = sigs[target].index(cont)
+            # the block names the emitting instance first and then every parameter the dump lists
+            plines = ''.join(' * @arg%d: %sthe values\n' % (j, (ann + ': ') if j == k else '') for j in range(len(sigs[target])))
+            block = '/**\n * FooObj::%s:\n * @object: the emitter\n%s *\n * Emitted.\n */' % (target, plines)
+        case = dict(dump=dump, block=block)
+        outs = []
+        try:
+            for comments in ([], [(block, '/src/foo.c', 40)]):
+                r = S.run(list(syms), comments=comments, includes=['GLib', 'GObject'], dump=ET.ElementTree(ET.fromstring(dump)), warnings=False)
+                cls = next(x for x in S.gir_ns(r.root).findall(S.CORE + 'class') if x.get('name') == 'Obj')
+                desc = {}
+                for pel in cls.findall(S.CORE + 'property'):
+                    desc['property ' + pel.get('name')] = ET.tostring(pel).decode()
+                for sel in cls.findall(S.GLIB + 'signal'):
+                    desc['signal ' + sel.get('name')] = ET.tostring(sel).decode()
+                outs.append(desc)
+        except (Exception, SystemExit) as e:      # noqa
+            ck.failing_input('the scanner fails on container types of the runtime dump: %r' % (e,), case)
+            continue
+        ck.count_case(dict(container=cont, annotated=target, signals=sigs, properties=props), kind='container-frame')
+        plain, annotated = outs
+        me = ('property ' if target == 'items' else 'signal ') + target
+        if (annotated.get(me) or '').count('name="utf8"') <= (plain.get(me) or '').count('name="utf8"'):
+            ck.tie_broken('harness', 'the (element-type) annotation of the container scenario changes nothing: the scenario tests nothing', case)
+        for key in plain:
+            if key != me and plain[key] != annotated.get(key):
+                ck.failing_input('an (element-type) annotation on one use of a container type of the runtime dump changes what is '
+                                 'reported for another signal or property', dict(case, annotated=me, changed=key),
+                                 detail=dict(without_annotation=plain[key], with_annotation=annotated.get(key)))
+                break
+
+
 def main(tier, seed):
     ck = Check('C12', tier, seed)
     ck.assumptions += ['the runtime dump is given as XML (the introspection binary cannot be built and run here); girepository/gdump.c is '
@@ -396,6 +466,7 @@ def main(tier, seed):
     rng = random.Random(seed)
     n = 60 if tier == 'quick' else 900
     fundamental_clauses(ck, S, ET, rng, 12 if tier == 'quick' else 150)
+    container_clauses(ck, S, ET, random.Random(seed + 77), 10 if tier == 'quick' else 120)
     qitems = []
     for i in range(n // 2):
         run_error_world(ck, S, ET, error_world(rng), qitems)
